@@ -1,7 +1,7 @@
 PROP = dict(
     id="C16",
     lean_modules=["TongoProofs.C16"],
-    gen=[],
+    gen=["LevelMask", "TlbTypes", "IntTypes"],
     spec_ops=("msg.hash", "tx.hash"),
     rule="synthetic messages: the three info kinds in turn; src/dest over none/extern/std/var (incl. off-schema kinds the "
          "decoder accepts), anycast on a third of the addresses; init absent / inline (all optional parts) / in a "
@@ -10,7 +10,9 @@ PROP = dict(
          "init, body placement and a standard destination's anycast (normalised hashes must be equal) and a partner "
          "differing in one destination bit / workchain / a variable destination's anycast / one body bit / body length / "
          "whole body (must differ); every transaction of the blocks in tlb/testdata (found by decoding every cell tagged "
-         "0111) and every message of those transactions. non-trivial = distinct message / transaction table",
+         "0111) and every message of those transactions; every one of these also with one leaf replaced by a well-formed "
+         "pruned branch (source cell of level 1), through the plain and the hasher-carrying decoder, and four at a time "
+         "through ONE shared hasher. non-trivial = distinct message / transaction table",
     trusted_base=[
         "hand model lean/TongoModel/Message.lean (message layout as bit lists, shallow StateInit, the canonical ext-in "
         "builder) tied to tlb/messages.go, tlb/transactions.go by msg.hash / tx.hash on every run: Hash(false), Hash(true), "
@@ -19,10 +21,17 @@ PROP = dict(
         "evaluates it row-wise over tables (Table.infos), the theorems speak about trees",
     ],
     assumptions=[
-        "the hash function is a parameter H of every theorem; norm_distinguishes takes collision-freedom as the explicit "
-        "hypothesis hinj (injectivity of Cell.reprHash on the two canonical cells = C02 hash_injective, owned by the hash slice)",
-        "source_boc_roundtrip cites the BOC round trip (C01, owned by the boc slice) as hypothesis hrt; on the Go side "
-        "DeserializeBoc(SourceBoc()) is checked directly for every real transaction, with and without hasher",
+        "the hash function is a parameter H of every theorem; norm_distinguishes goes through C02 reprHash_eq_spec and keeps ONE "
+        "idealisation: collision-freedom of H on the two canonical representations (CollisionFree H [canonRepr .., canonRepr ..]); "
+        "it distinguishes destinations fully and bodies by their representation hash; the canonical cells must be well "
+        "formed (Spec.WFExotic) and within the depth limit",
+        "source_boc_roundtrip uses C01 roundtrip; the premise that remains is C01's own order_valid (the order computed by "
+        "importCell/reorderCells/revisit for the source cell is a valid layout unfolding to it), plus the format's size "
+        "limits; on the Go side DeserializeBoc(SourceBoc()) is checked directly for every real transaction, with and "
+        "without hasher",
+        "layout_matches_go_descriptor ties the hand-written bit layout to the descriptor regenerated from tlb/messages.go "
+        "through C04 impl_eq_spec_Message, in the domain of the transcribed block.tlb (anycast depth <= 30, no extra "
+        "currencies, empty state-init library, ordinary body cell)",
         "msg_hash_hasher_independent assumes a sound hasher cache (C02 cache_sound); on the Go side hasher and plain "
         "decoders are compared on every message and transaction (cold and warm cache)",
         "StateInit is modelled shallowly (the library dictionary is its root reference); body cells are ordinary cells "
@@ -31,10 +40,9 @@ PROP = dict(
         "transactions that the Go decoder accepts are the test domain of tx.hash",
     ],
     partial=[
-        "decode-after-encode (norm_ignores_src_fee_init_placement, body_inline_eq_ref) is proved for the external-in layout; "
-        "internal and external-out layouts are covered by the correspondence only (their normalised hash is the plain hash: "
-        "non_extin_unchanged)",
-        "norm_distinguishes and source_boc_roundtrip are relative to the cited C02 / C01 statements (explicit hypotheses)",
+        "decode-after-encode is proved for all three kinds (msg_roundtrip_all_kinds) with extra currencies absent; an internal "
+        "message carrying an extra-currency dictionary is covered by the correspondence only",
+        "source_boc_roundtrip is relative to C01 order_valid (not proved by the boc slice either: checked per input)",
     ],
     level_text="Theorems for ALL inputs about the model: the reported message / transaction hash is the representation hash "
                "of the whole source cell, fields are decoded from the start of the cell (msg_hash_is_cell_hash, "
@@ -45,12 +53,12 @@ PROP = dict(
                "import fee < 2^120, absent/inline/referenced state-init and inline/referenced body "
                "(norm_ignores_src_fee_init_placement, body_inline_eq_ref; address, VarUInteger 16 and StateInit "
                "decode-after-encode lemmas); different destinations or bodies give different normalised hashes under the "
-               "stated injectivity hypothesis (norm_distinguishes, with encodeAddr_injective proved); non-ext-in unchanged. "
-               "Tie: exact comparison of Go's Hash(false)/Hash(true) with the model on ~6k messages and ~1.3k real "
-               "transactions per run, plus direct oracles (hash == Cell.Hash with/without hasher, moved cursors, enclosing "
+               "collision-freedom of H on the two canonical representations (norm_distinguishes; canonRepr_injective, encodeAddr_injective proved); non-ext-in unchanged. "
+               "Tie: exact comparison of Go's Hash(false)/Hash(true) with the model on ~11k messages and ~2k transactions per run "
+               "(plain and hasher-carrying decoders, with and without a pruned branch below the source cell), plus direct oracles (hash == Cell.Hash with/without hasher, moved cursors, enclosing "
                "records, equal/unequal classes, canonical re-encoding through tlb.Marshal, SourceBoc parsed back, Hash(true) "
                "leaves the message unchanged).",
-    level_note="trusted: Lean kernel, Cell.reprHash as the definition of the hash (C02), the harness; cited: C01 round trip, C02 "
-               "injectivity under collision-freedom",
+    level_note="trusted: Lean kernel, the C02 specification of the hash, the block.tlb transcription of C04, the harness; open "
+               "premise: C01 order_valid",
     technique="Lean 4 model + theorems; differential correspondence on synthetic and real cells; direct oracles",
 )
